@@ -87,9 +87,21 @@ def tie_averse_schemes(draw):
     return [[0.0, b1, b2, b3, b4, draw(v)], [t0, t0, 0.0, t3, t3, draw(v)]]
 
 
+EXTREME_FACTORS = [2.0 ** -30, 2.0 ** -20, 2.0 ** -10, 2.0 ** 10, 2.0 ** 20]
+
+
+@st.composite
+def scaled_schemes(draw):
+    """a dyadic scheme times a large or tiny power of two: still exactly representable (so exact oracles apply), but
+    every ABSOLUTE tolerance or threshold in the code under test is now far off the scale of the penalties"""
+    base = draw(st.one_of(free_schemes(), preset_multiples(), tie_averse_schemes()))
+    return scale(base, draw(st.sampled_from(EXTREME_FACTORS)))
+
+
 def dyadic_schemes():
     """exactly representable penalties: every library comparison is decided on exact values"""
-    return st.one_of(free_schemes(), free_schemes(), preset_multiples(), near_presets())
+    return st.one_of(free_schemes(), free_schemes(), preset_multiples(), near_presets(), free_schemes(),
+                     preset_multiples(), scaled_schemes())
 
 
 def decimal_schemes():
@@ -97,13 +109,15 @@ def decimal_schemes():
 
 
 def any_schemes():
-    return st.one_of(free_schemes(), free_schemes(), preset_multiples(), near_presets(), decimal_schemes())
+    return st.one_of(free_schemes(), free_schemes(), preset_multiples(), near_presets(), decimal_schemes(),
+                     free_schemes(), preset_multiples(), scaled_schemes())
 
 
 def scheme_labels(s):
     b, t = s
     labs = []
-    dy = all((x * 1024) == int(x * 1024) for x in b + t)
+    from vlib.lib import is_dyadic
+    dy = is_dyadic(s)
     labs.append("scheme:dyadic" if dy else "scheme:decimal")
     if b[5] != t[5]:
         labs.append("scheme:B5!=T5")
